@@ -144,6 +144,9 @@ pub struct BuildSpec {
     /// `NoiseParams.name` replaced after parsing (the field is public, and `NoiseParams::new` takes any string): the
     /// handshake must hash THIS string, whatever the choices are
     pub alias: Option<String>,
+    /// `NoiseParams.handshake.modifiers.list` replaced after parsing by a hand-built list (public fields): lists the
+    /// parser never produces (duplicates, any order). Rendered `psk0,psk0,fallback`.
+    pub mods: Option<String>,
 }
 
 #[derive(Clone, Debug, Default)]
@@ -229,13 +232,15 @@ impl Exec {
                     };
                     (
                         format!(
-                            "ok pattern={} mods={} dh={:?} cipher={:?} hash={:?} name={}",
+                            "ok pattern={} mods={} dh={:?} cipher={:?} hash={:?} name={} psk={} fb={}",
                             p.handshake.pattern.as_str(),
                             mods,
                             p.dh,
                             p.cipher,
                             p.hash,
-                            hex(p.name.as_bytes())
+                            hex(p.name.as_bytes()),
+                            u8::from(p.handshake.is_psk()),
+                            u8::from(p.handshake.is_fallback())
                         ),
                         Out::Ok(vec![]),
                     )
@@ -244,6 +249,48 @@ impl Exec {
         };
         self.record(op, res);
         out
+    }
+
+    /// The individual `FromStr` impls of the parameter types, called directly.
+    pub fn parse_part(&mut self, kind: &str, text: &[u8]) -> String {
+        use snow::params::{BaseChoice, CipherChoice, DHChoice, HandshakeChoice, HandshakeModifier, HandshakeModifierList, HandshakePattern, HashChoice};
+        let op = format!("parse_part {kind} {}", hex(text));
+        let fm = |m: &HandshakeModifier| match m {
+            HandshakeModifier::Psk(n) => format!("psk{n}"),
+            HandshakeModifier::Fallback => "fallback".to_string(),
+        };
+        let fl = |l: &[HandshakeModifier]| if l.is_empty() { "-".to_string() } else { l.iter().map(fm).collect::<Vec<_>>().join(",") };
+        let res = match std::str::from_utf8(text) {
+            Err(_) => "notutf8".to_string(),
+            Ok(s) => {
+                let r = catch_unwind(AssertUnwindSafe(|| -> Result<String, Error> {
+                    Ok(match kind {
+                        "base" => s.parse::<BaseChoice>().map(|_| "Noise".to_string())?,
+                        "dh" => format!("{:?}", s.parse::<DHChoice>()?),
+                        "cipher" => format!("{:?}", s.parse::<CipherChoice>()?),
+                        "hash" => format!("{:?}", s.parse::<HashChoice>()?),
+                        "pattern" => s.parse::<HandshakePattern>()?.as_str().to_string(),
+                        "modifier" => fm(&s.parse::<HandshakeModifier>()?),
+                        "modlist" => fl(&s.parse::<HandshakeModifierList>()?.list),
+                        "handshake" => {
+                            let h = s.parse::<HandshakeChoice>()?;
+                            format!("{} {} psk={} fb={}", h.pattern.as_str(), fl(&h.modifiers.list), u8::from(h.is_psk()), u8::from(h.is_fallback()))
+                        },
+                        _ => "badkind".to_string(),
+                    })
+                }));
+                match r {
+                    Err(_) => {
+                        self.panics += 1;
+                        "panic".to_string()
+                    },
+                    Ok(Err(e)) => format!("err {}", err_str(&e)),
+                    Ok(Ok(v)) => format!("ok {v}"),
+                }
+            },
+        };
+        self.record(op, res.clone());
+        res
     }
 
     pub fn tokens(&mut self, pattern_index: usize, mods: &[snow::params::HandshakeModifier]) -> String {
@@ -288,13 +335,20 @@ impl Exec {
             psks,
             opt_hex(&spec.prologue),
             hex(&spec.rng),
-            spec.alias.as_ref().map_or(String::new(), |a| format!(" alias=x{}", hex(a.as_bytes())))
+            spec.alias.as_ref().map_or(String::new(), |a| format!(" alias=x{}", hex(a.as_bytes()))) + &spec.mods.as_ref().map_or(String::new(), |m| format!(" mods={m}"))
         );
         let log = new_log();
         let r = catch_unwind(AssertUnwindSafe(|| -> Result<HandshakeState, Error> {
             let mut params: NoiseParams = spec.name.parse()?;
             if let Some(a) = &spec.alias {
                 params.name = a.clone();
+            }
+            if let Some(m) = &spec.mods {
+                params.handshake.modifiers.list = m
+                    .split(',')
+                    .filter(|x| !x.is_empty() && *x != "-")
+                    .map(|x| if x == "fallback" { snow::params::HandshakeModifier::Fallback } else { snow::params::HandshakeModifier::Psk(x[3..].parse().unwrap_or(255)) })
+                    .collect();
             }
             let mut b = if spec.resolver == "new" {
                 // snow's own choice of resolver (`Builder::new`): no recording, no scripted randomness
@@ -618,16 +672,43 @@ impl Exec {
     }
 
     pub fn rekey_manual(&mut self, sid: u32, ki: Option<&[u8; 32]>, kr: Option<&[u8; 32]>) -> Out {
+        // every other call goes through the dedicated `rekey_initiator_manually` / `rekey_responder_manually`
+        self.tf_toggle = !self.tf_toggle;
+        let direct = self.tf_toggle;
+        self.rekey_manual_via(sid, ki, kr, direct)
+    }
+
+    /// `direct`: `rekey_initiator_manually(k)` / `rekey_responder_manually(k)` (one call per given key, initiator first,
+    /// which is what `rekey_manually` is documented to do) instead of `rekey_manually(ki, kr)`.
+    pub fn rekey_manual_via(&mut self, sid: u32, ki: Option<&[u8; 32]>, kr: Option<&[u8; 32]>, direct: bool) -> Out {
         let f = |k: Option<&[u8; 32]>| k.map_or("none".to_string(), |k| hex(k));
-        let op = format!("rekey_manual {} {} {}", sid, f(ki), f(kr));
+        let op = format!("rekey_manual{} {} {} {}", if direct { "_d" } else { "" }, sid, f(ki), f(kr));
         let Some((sess, _)) = self.sessions.get_mut(&sid) else { return self.no_session(op) };
         let r = catch_unwind(AssertUnwindSafe(|| match sess {
             Sess::Ts(ts) => {
-                ts.rekey_manually(ki, kr);
+                if direct {
+                    if let Some(k) = ki {
+                        ts.rekey_initiator_manually(k);
+                    }
+                    if let Some(k) = kr {
+                        ts.rekey_responder_manually(k);
+                    }
+                } else {
+                    ts.rekey_manually(ki, kr);
+                }
                 true
             },
             Sess::Sts(ts) => {
-                ts.rekey_manually(ki, kr);
+                if direct {
+                    if let Some(k) = ki {
+                        ts.rekey_initiator_manually(k);
+                    }
+                    if let Some(k) = kr {
+                        ts.rekey_responder_manually(k);
+                    }
+                } else {
+                    ts.rekey_manually(ki, kr);
+                }
                 true
             },
             _ => false,
